@@ -1,9 +1,43 @@
-(* C06 — placeholder until the refinement proof lands (see FS/RefineProofs.v). *)
-From Coq Require Import List NArith Bool.
-From PyFS Require Import Base.PyStr Base.Outcome FS.Tree FS.Ops FS.Ref FS.Agree FS.Mem.
+(* C06 — Failures are fs.errors exceptions for a real cause and change nothing (MemoryFS model, calls in [covered]; the reference's admissible classes encode 'the documented condition holds'). *)
+From Coq Require Import List NArith ZArith Bool Arith.
+From PyFS Require Import Base.PyStr Base.Outcome Path.PathModel Path.PathSpec FS.Tree FS.Monad FS.Mode FS.Base
+     FS.Mem FS.Ops FS.Ref FS.Agree FS.Props FS.Wf FS.PropsProofs.
 Import ListNotations.
 
-Theorem C06_ref_makedir_example :
-  agree (mem_run (OMakedir [97%N] false) empty_dir) (ref_run (OMakedir [97%N] false) empty_dir) = true.
-Proof. reflexivity. Qed.
-Print Assumptions C06_ref_makedir_example.
+Theorem C06_mem_no_foreign_exception : forall o s k,
+  wf s -> covered o = true -> snd (mem_run o s) = Crash k ->
+  k = ValueError /\ rs_res (ref_run o s) = RValueError.
+Proof. exact mem_no_foreign_exception. Qed.
+Print Assumptions C06_mem_no_foreign_exception.
+
+Theorem C06_mem_error_admissible : forall o s e,
+  wf s -> covered o = true -> snd (mem_run o s) = Err e ->
+  exists adm, rs_res (ref_run o s) = RFail adm /\ In e adm.
+Proof. exact mem_error_admissible. Qed.
+Print Assumptions C06_mem_error_admissible.
+
+Theorem C06_ref_fail_keeps_tree : forall o t adm,
+  covered o = true -> rs_res (ref_run o t) = RFail adm -> rs_tree (ref_run o t) = Some t.
+Proof. exact ref_fail_keeps_tree. Qed.
+Print Assumptions C06_ref_fail_keeps_tree.
+
+Theorem C06_ref_valueerror_keeps_tree : forall o t,
+  covered o = true -> rs_res (ref_run o t) = RValueError -> rs_tree (ref_run o t) = Some t.
+Proof. exact ref_valueerror_keeps_tree. Qed.
+Print Assumptions C06_ref_valueerror_keeps_tree.
+
+Theorem C06_ref_covered_not_any : forall o t, covered o = true -> rs_res (ref_run o t) <> RAny.
+Proof. exact ref_covered_not_any. Qed.
+Print Assumptions C06_ref_covered_not_any.
+
+Theorem C06_mem_failed_call_is_noop : forall o s e,
+  wf s -> covered o = true -> snd (mem_run o s) = Err e ->
+  tree_eqb true (fst (mem_run o s)) s = true.
+Proof. exact mem_failed_call_is_noop. Qed.
+Print Assumptions C06_mem_failed_call_is_noop.
+
+Theorem C06_mem_crashed_call_is_noop : forall o s k,
+  wf s -> covered o = true -> snd (mem_run o s) = Crash k ->
+  tree_eqb true (fst (mem_run o s)) s = true.
+Proof. exact mem_crashed_call_is_noop. Qed.
+Print Assumptions C06_mem_crashed_call_is_noop.
